@@ -974,6 +974,26 @@ def _run_case(case, rec, checks, tmpdir, opened):
                     require(isinstance(handed, EmptySignal) or (
                         not hasattr(handed, "__len__") and not np.any(np.asarray(handed.values) != 0)),
                         "%s: off-cone, but the antenna was not handed an empty signal", what)
+                if "align" in checks and en.cut is False and j < len(spy):
+                    # the cut is the ONLY reason for an empty pulse (besides a model that refuses
+                    # its arguments with ValueError): a kept view is handed the propagated pair
+                    handed = spy[j]["signal"]
+                    if isinstance(handed, EmptySignal) or not hasattr(handed, "__len__"):
+                        try:
+                            model_class(case["model"])(times=np.array(times), particle=en.particle,
+                                                       viewing_angle=en.psi,
+                                                       viewing_distance=en.path.path_length,
+                                                       ice_model=solver.ice)
+                        except ValueError:
+                            classes.add("model_refuses")
+                        else:
+                            raise Violation("%s: viewing angle %.6f deg is %.6f deg off the Cherenkov angle, "
+                                            "within offcone_max=%r, but the antenna was handed %s instead of "
+                                            "the propagated pulse" % (what, math.degrees(en.psi),
+                                                                      math.degrees(abs(en.psi - en.theta_c)),
+                                                                      case["offcone_max"], type(handed).__name__))
+                    else:
+                        require(len(handed) == 2, "%s: receive got %d signal components", what, len(handed))
                 if "values" in checks and en.cut is not None:
                     ref = reference_signal(case, solver, en, twins[ia], times)
                     try:
